@@ -16,7 +16,7 @@ vars == <<v, hist>>
 
 R0 == [phase |-> "new", sid |-> 0, res |-> 0, outcome |-> "none", sHdr |-> FALSE, sES |-> FALSE, sRst |-> FALSE, sBad |-> FALSE,
        body |-> 0, sentBody |-> 0, sentES |-> FALSE, win |-> 0, canceled |-> FALSE, rbytes |-> 0]
-V0 == [r |-> [i \in Reqs |-> R0], nextSid |-> 1, goaway |-> FALSE, gaLast |-> 0, closed |-> FALSE, winC |-> 5, initWin |-> 2, nf |-> 0,
+V0 == [r |-> [i \in Reqs |-> R0], nextSid |-> 1, goaway |-> FALSE, gaLast |-> 0, closed |-> FALSE, winC |-> 5, initWin |-> 2, mfs |-> 1, nf |-> 0,
        openedAfterGoAway |-> FALSE]
 
 Ev(op, req, a, b, es) == [op |-> op, req |-> req, a |-> a, b |-> b, es |-> es]
@@ -88,6 +88,14 @@ SrvSettings == \E iw \in {0, 1, 4} :
           PumpAll([v EXCEPT !.initWin = iw, !.r = [i \in Reqs |-> IF v.r[i].phase = "sent" /\ ~v.r[i].sentES
                                                                THEN [v.r[i] EXCEPT !.win = @ + (iw - v.initWin)] ELSE v.r[i]]]))
 
+\* SETTINGS_MAX_FRAME_SIZE level (1: 16384, 2: 32768, 3: 65536).  The model has no frames - Pump moves units -
+\* so the level only labels the history: the recording's DATA frames are judged against the level in force
+\* when they were sent (H2ClientTrace: C07:data-frame-over-max-frame-size), in particular for a body that
+\* was waiting for window when the level changed.
+SrvMfs == \E k \in {1, 2, 3} :
+  /\ "mfs" \in Ops /\ k # v.mfs
+  /\ Step(Ev("mfs", 0, k, 0, FALSE), [v EXCEPT !.mfs = k])
+
 SrvClose == /\ "srvclose" \in Ops
             /\ Step(Ev("srvclose", 0, 0, 0, FALSE), [ResolveAll(v, Reqs, "err") EXCEPT !.closed = TRUE])
 UserClose == /\ "close" \in Ops
@@ -97,7 +105,7 @@ Cancel == \E i \in Reqs :
   /\ Step(Ev("cancel", i, 0, 0, FALSE), [v EXCEPT !.r[i].canceled = TRUE, !.r[i].phase = "done", !.r[i].res = 1, !.r[i].outcome = "canceled"])
 
 Init == v = V0 /\ hist = <<>>
-Next == Call \/ SrvHeaders \/ SrvData \/ SrvRst \/ SrvGoAway \/ SrvWU \/ SrvSettings \/ SrvClose \/ UserClose \/ Cancel
+Next == Call \/ SrvHeaders \/ SrvData \/ SrvRst \/ SrvGoAway \/ SrvWU \/ SrvSettings \/ SrvMfs \/ SrvClose \/ UserClose \/ Cancel
 Spec == Init /\ [][Next]_vars
 View == v
 
